@@ -215,6 +215,8 @@ InitEp(role, cfg, maxClosed) ==
    hd |-> FALSE,                \* the HPACK encoder context is no longer predictable (a failed send consumed it)
    sat |-> FALSE,               \* a number of the implementation left the 32-bit range this model computes in
    dl |-> FALSE,                \* the HPACK decoder gave up in the middle of a block (its table is no longer predictable)
+   inited |-> FALSE,            \* initiate_connection has been called (the connection state machine does not know)
+   upgRet |-> <<>>,             \* the HTTP2-Settings payload initiate_upgrade_connection returned (client)
    dev |-> {}]
 
 Has(ep, sid) == sid \in DOMAIN ep.streams
@@ -282,9 +284,12 @@ PrioFields(pr) == <<IF pr[1] = <<>> THEN 16 ELSE pr[1][1], IF pr[2] = <<>> THEN 
 Initiate(ep) ==
   LET c1 == ConnStep(ep, "SEND_SETTINGS") IN
   IF ~c1.ok THEN CR(c1.ep, PE)
-  ELSE LET pairs == [i \in 1..Len(ep.ls.ord) |-> <<ep.ls.ord[i], SCur(ep.ls, ep.ls.ord[i])>>]
+  ELSE LET ids == SelectSeq(ep.ls.ord, LAMBDA id : id \notin ep.ls.hn)        \* the settings that have a value in force
+           pairs == [i \in 1..Len(ids) |-> <<ids[i], SCur(ep.ls, ids[i])>>]
        \* the initial frame changes nothing (its values are in force already): it counts as an empty change set
-       IN CR(Emit([c1.ep EXCEPT !.lsF = Append(@, <<>>), !.lsH = Append(@, IF SHas(ep.ls, 1) THEN <<SCur(ep.ls, 1)>> ELSE <<>>)],
+           \* nothing stops a second call: it writes the preface (client) and the full SETTINGS frame again
+           e1 == IF ep.conn # "IDLE" THEN Mark(c1.ep, "second_initiate_emits_preamble") ELSE c1.ep
+       IN CR(Emit([e1 EXCEPT !.inited = TRUE, !.lsF = Append(@, <<>>), !.lsH = Append(@, IF SHas(ep.ls, 1) THEN <<SCur(ep.ls, 1)>> ELSE <<>>)],
                   (IF ep.role = "c" THEN <<FPreface>> ELSE <<>>) \o <<FSettings(pairs)>>), OK)
 
 StreamSendHeaders(ep, c) ==
@@ -458,23 +463,6 @@ AckData(ep, c) ==
                IN CR(closedMark(Emit([e1 EXCEPT !.streams[c.sid].iw = sw.w], f2), f2), OK)
 
 OpenCount(ep, parity) == LET e1 == Cleanup(ep) IN [ep |-> e1, r |-> [c |-> "ok", e |-> -1, v |-> CountOpen(e1, parity)]]
-
-Call(ep, c) ==
-  CASE c.op = "init"  -> Initiate(ep)
-    [] c.op = "hdr"   -> SendHeaders(ep, c)
-    [] c.op = "data"  -> SendData(ep, c)
-    [] c.op = "end"   -> EndStream(ep, c)
-    [] c.op = "inc"   -> IncrementWindow(ep, c)
-    [] c.op = "push"  -> PushStream(ep, c)
-    [] c.op = "ping"  -> Ping(ep, c)
-    [] c.op = "rst"   -> ResetStream(ep, c)
-    [] c.op = "close" -> CloseConnection(ep, c)
-    [] c.op = "set"   -> UpdateSettings(ep, c)
-    [] c.op = "alt"   -> AdvertiseAltSvc(ep, c)
-    [] c.op = "prio"  -> Prioritize(ep, c)
-    [] c.op = "ack"   -> AckData(ep, c)
-    [] c.op = "oin"   -> OpenCount(ep, 1 - MyParity(ep))
-    [] c.op = "oout"  -> OpenCount(ep, MyParity(ep))
 
 \* ---------------------------------------------------------------- received frames
 \* result: x = OK or the exception that escapes the frame handler; ev = events of this frame
@@ -787,6 +775,10 @@ ReceiveLoop(ep, fs, evs, lim) ==
   THEN \* refused by the frame parser: the frame is not even removed from the buffer
        LET e1 == IF FrameLen(fs[1]) > ep.mif THEN ep ELSE Mark(ep, "frame_size_limit_snapshot")
        IN [ep |-> [Terminate(e1, 6) EXCEPT !.pend = fs], r |-> Exc("FrameTooLargeError", 6), ev |-> <<>>]
+  ELSE IF fs[1].t = "PREFACE"
+  THEN \* the 24 octets of a client preface read as a frame header announce a frame of 0x505249 octets; the length is only
+       \* checked once a whole frame is buffered, so the parser waits for the rest and nothing behind it is ever looked at
+       [ep |-> [ep EXCEPT !.pend = fs], r |-> OK, ev |-> evs]
   ELSE LET e0 == IF FrameLen(fs[1]) > ep.mif THEN Mark(ep, "frame_size_limit_snapshot") ELSE ep
            r == RecvFrame(e0, fs[1]) IN
        IF r.x.c = "ok" THEN ReceiveLoop(r.ep, Tail(fs), evs \o [i \in 1..Len(r.ev) |-> Shift(r.ev[i], Len(evs))], lim)
@@ -796,9 +788,69 @@ ReceiveLoop(ep, fs, evs, lim) ==
        \* removed from it (every later call fails on it again)
        ELSE [ep |-> [Terminate(r.ep, r.x.e) EXCEPT !.pend = IF BadStreamZero(fs[1]) THEN fs ELSE Tail(fs)],
              r |-> [c |-> r.x.c, e |-> r.x.e], ev |-> <<>>]
+\* The client preface travels glued to the frame behind it (field pre).  A server's input must start with it: anything else
+\* is refused before it is even buffered (ProtocolError, no GOAWAY: the connection is not terminated by this).  A preface
+\* anywhere else is read as a frame header.
+HasPre(f) == "pre" \in DOMAIN f /\ f.pre
+RECURSIVE Unglue(_)
+Unglue(fs) == IF fs = <<>> THEN <<>>
+              ELSE IF HasPre(fs[1]) THEN <<FPreface, [fs[1] EXCEPT !.pre = FALSE]>> \o Unglue(Tail(fs))
+              ELSE <<fs[1]>> \o Unglue(Tail(fs))
 Receive(ep, fs) ==
-  IF ep.needPre /\ fs # <<>> THEN ReceiveLoop([ep EXCEPT !.needPre = FALSE], ep.pend \o fs, <<>>, ep.mif)
-  ELSE ReceiveLoop(ep, ep.pend \o fs, <<>>, ep.mif)
+  IF ep.needPre /\ fs # <<>>
+  THEN IF HasPre(fs[1]) THEN ReceiveLoop([ep EXCEPT !.needPre = FALSE], <<[fs[1] EXCEPT !.pre = FALSE]>> \o Unglue(Tail(fs)), <<>>, ep.mif)
+       ELSE [ep |-> ep, r |-> PE, ev |-> <<>>]
+  ELSE ReceiveLoop(ep, ep.pend \o Unglue(fs), <<>>, ep.mif)
+
+
+\* ---------------------------------------------------------------- h2c upgrade (initiate_upgrade_connection)
+\* c.src: "none" no HTTP2-Settings value, "lit" the value is the SETTINGS payload c.s (pairs).  A client returns the payload
+\* to put into its HTTP2-Settings header: its local settings in force, in dictionary order (result field v).
+\* The connection preamble is emitted first; then (server) the client's settings are applied as if received in a SETTINGS
+\* frame whose ACK is thrown away; then stream 1 is created half-closed: (local) on a client, (remote) on a server.
+Upgrade(ep, c) ==
+  LET i == Initiate(ep) IN
+  IF i.r.c # "ok" THEN CR(i.ep, i.r)
+  ELSE LET e1 == i.ep
+           ids == SelectSeq(ep.ls.ord, LAMBDA id : id \notin ep.ls.hn)
+           ret == IF ep.role = "c" THEN [k \in 1..Len(ids) |-> <<ids[k] % 256, SCur(ep.ls, ids[k])>>] ELSE <<>>
+           \* a raise after this point leaves the preamble in the output buffer (deviation upgrade_raises_after_preamble)
+           fail(e, x) == CR(Mark(e, "upgrade_raises_after_preamble"), x)
+           applied == IF ep.role = "s" /\ c.src = "lit" /\ c.s # <<>>
+                      THEN LET r == RecvSettings(e1, FSettings(c.s)) IN [ep |-> [r.ep EXCEPT !.out = e1.out], x |-> r.x]
+                      ELSE [ep |-> e1, x |-> OK]
+       IN IF applied.x.c # "ok" THEN fail(applied.ep, applied.x)
+          ELSE LET c1 == ConnStep(applied.ep, IF ep.role = "c" THEN "SEND_HEADERS" ELSE "RECV_HEADERS") IN
+          IF ~c1.ok THEN fail(c1.ep, PE)
+          ELSE LET b == Begin(c1.ep, 1, 1) IN
+          IF ~b.ok THEN fail(c1.ep, b.x)
+          ELSE LET p == Process(b.ep.streams[1], IF ep.role = "c" THEN "UPGRADE_CLIENT" ELSE "UPGRADE_SERVER") IN
+               CR([Put(b.ep, 1, p.st) EXCEPT !.upgRet = ret], [c |-> "ok", e |-> -1, v |-> ret])
+
+Call0(ep, c) ==
+  CASE c.op = "init"  -> Initiate(ep)
+    [] c.op = "hdr"   -> SendHeaders(ep, c)
+    [] c.op = "data"  -> SendData(ep, c)
+    [] c.op = "end"   -> EndStream(ep, c)
+    [] c.op = "inc"   -> IncrementWindow(ep, c)
+    [] c.op = "push"  -> PushStream(ep, c)
+    [] c.op = "ping"  -> Ping(ep, c)
+    [] c.op = "rst"   -> ResetStream(ep, c)
+    [] c.op = "close" -> CloseConnection(ep, c)
+    [] c.op = "set"   -> UpdateSettings(ep, c)
+    [] c.op = "alt"   -> AdvertiseAltSvc(ep, c)
+    [] c.op = "prio"  -> Prioritize(ep, c)
+    [] c.op = "ack"   -> AckData(ep, c)
+    [] c.op = "oin"   -> OpenCount(ep, 1 - MyParity(ep))
+    [] c.op = "oout"  -> OpenCount(ep, MyParity(ep))
+    [] c.op = "upg"   -> Upgrade(ep, c)
+\* nothing stops a call from writing frames before the connection preamble has been written (the connection state machine
+\* starts in a state in which every send is allowed)
+Call(ep, c) ==
+  LET r == Call0(ep, c) IN
+  IF ~ep.inited /\ c.op \notin {"init", "upg"} /\ Len(r.ep.out) > Len(ep.out)
+  THEN [r EXCEPT !.ep = Mark(@, "sends_before_preamble")] ELSE r
+
 
 \* ---------------------------------------------------------------- queries (pure)
 LocalWindow(ep, sid) == LET lk == Lookup(ep, sid) IN IF lk.c = "ok" THEN Min(ep.ow, ep.streams[sid].ow) ELSE lk.c
